@@ -6,13 +6,17 @@
   Modelled: the bus `state`, the `execv` flag, the polling loop of `wait`
   (`w4: while self.state not in states` / `w5: time.sleep` / `w6: self.publish('main')`), the
   second thread's calls line by line (only the lines that write `state`/`execv` have an effect),
-  the tail of `block` after `wait` returned as ONE step (`tail`: the join loop over
-  `threading.enumerate()` and `if self.execv: self._do_execv()`), ghost fields for what the
-  property talks about (`pubs` = 'main' publications, `exited` = an `exit()` has written EXITING,
-  `sawExiting` = `wait` left its loop).
-  Not modelled: listeners that raise (C18), `KeyboardInterrupt`/`SystemExit` inside `wait`, the
-  real `threading.enumerate()`/`join` of foreign non-daemon threads, `_do_execv` itself, `os._exit`
-  when `exit()` is called in state STARTING by a third thread (kept as the terminal pc `osExit`).
+  the tail of `block` after `wait` returned: `tail` = `threading.enumerate()` (a snapshot of the
+  threads alive at that moment: the main thread, the caller, the second bus thread, the foreign
+  threads of the application that have not finished), `jn` = one iteration of the join loop (a
+  candidate is joined iff it is not the caller, not the `_MainThread` and not daemonic), `jw` =
+  blocked in `t.join()` until that foreign thread has finished (`Tid.f k` = the turn in which
+  foreign thread `k` finishes), `ex` = `if self.execv`, `dx` = `self._do_execv()`; ghost fields for
+  what the property talks about (`pubs` = 'main' publications, `exited` = an `exit()` has written
+  EXITING, `sawExiting` = `wait` left its loop, `joined` = the foreign threads joined, in order).
+  Not modelled: listeners that raise (C18), `KeyboardInterrupt`/`SystemExit` inside `wait`,
+  `_do_execv` itself, `os._exit` when `exit()` is called in state STARTING by a third thread
+  (kept as the terminal pc `osExit`).
 -/
 namespace CpModel.BlockWait
 
@@ -22,7 +26,18 @@ inductive St where
 
 /-- main thread: `bN` = `Bus.block`+N, `wN` = `Bus.wait`+N -/
 inductive MPc where
-  | b10 | b11 | w2 | w4 | w5 | w6 | tail | done
+  | b10 | b11 | w2 | w4 | w5 | w6 | tail | jn | jw | ex | dx | done
+  deriving DecidableEq, Repr, Inhabited
+
+/-- a thread as `threading.enumerate()` shows it to `block()` -/
+structure Cand where
+  /-- `t is threading.current_thread()` -/
+  cur : Bool := false
+  /-- `isinstance(t, threading._MainThread)` -/
+  main : Bool := false
+  daemon : Bool := false
+  /-- index among the application's foreign threads (`none`: main thread, caller, bus thread) -/
+  fid : Option Nat := none
   deriving DecidableEq, Repr, Inhabited
 
 inductive BCall where
@@ -55,6 +70,16 @@ structure Cfg where
   exited : Bool := false
   execvDone : Bool := false
   sawExiting : Bool := false
+  /-- the application's foreign threads: `daemon` flag of each (fixed) -/
+  foreign : List Bool := []
+  /-- ... and whether each has finished -/
+  fdone : List Bool := []
+  /-- what is left of the `threading.enumerate()` snapshot -/
+  snap : List Cand := []
+  /-- the foreign thread being joined (`jw`) -/
+  jtgt : Nat := 0
+  /-- ghost: foreign threads joined so far, in order -/
+  joined : List Nat := []
   deriving DecidableEq, Repr, Inhabited
 
 def enter (c : Cfg) : Cfg :=
@@ -66,7 +91,23 @@ def enter (c : Cfg) : Cfg :=
   | .exit :: r => { c with xpc := .e2, todo := r }
   | .restart :: r => { c with xpc := .r7, todo := r }
 
-def init (s0 : St) (calls : List BCall) : Cfg := enter { state := s0, todo := calls }
+def init (s0 : St) (calls : List BCall) (foreign : List Bool := []) : Cfg :=
+  enter { state := s0, todo := calls, foreign := foreign, fdone := foreign.map fun _ => false }
+
+def isDone (c : Cfg) (k : Nat) : Bool := c.fdone.getD k false
+
+/-- foreign threads still alive, as candidates -/
+def aliveForeign (c : Cfg) : List Cand :=
+  (List.range c.foreign.length).filterMap fun k =>
+    if isDone c k then none else some { daemon := c.foreign.getD k true, fid := some k }
+
+/-- `threading.enumerate()` at this moment: the real main thread, the caller of `block()`, the second
+    bus thread (daemonic), the foreign threads that have not finished -/
+def cands (c : Cfg) : List Cand :=
+  [{ main := true }, { cur := true }, { daemon := true }] ++ aliveForeign c
+
+/-- the test in `block()`: `t != current and not isinstance(t, _MainThread) and not t.daemon` -/
+def Cand.mustJoin (t : Cand) : Bool := !t.cur && !t.main && !t.daemon
 
 def stepMain (c : Cfg) : Cfg :=
   match c.mpc with
@@ -77,7 +118,19 @@ def stepMain (c : Cfg) : Cfg :=
            else { c with mpc := .w5 }
   | .w5 => { c with mpc := .w6 }
   | .w6 => { c with mpc := .w4, pubs := c.pubs + 1 }
-  | .tail => { c with mpc := .done, execvDone := c.execv }
+  | .tail => { c with mpc := .jn, snap := cands c }
+  | .jn =>
+    match c.snap with
+    | [] => { c with mpc := .ex }
+    | t :: r =>
+      if t.mustJoin then
+        match t.fid with
+        | some k => { c with snap := r, mpc := .jw, jtgt := k, joined := c.joined ++ [k] }
+        | none => { c with snap := r }
+      else { c with snap := r }
+  | .jw => { c with mpc := .jn }           -- enabled only once the joined thread has finished
+  | .ex => if c.execv then { c with mpc := .dx } else { c with mpc := .done }
+  | .dx => { c with mpc := .done, execvDone := true }
   | .done => c
 
 def stepX (c : Cfg) : Cfg :=
@@ -112,17 +165,21 @@ def stepX (c : Cfg) : Cfg :=
 
 inductive Tid where
   | main | x
+  /-- the turn in which foreign thread `k` finishes -/
+  | f (k : Nat)
   deriving DecidableEq, Repr, Inhabited
 
 def enabled (c : Cfg) : Tid → Bool
-  | .main => c.mpc ≠ .done
+  | .main => c.mpc ≠ .done && (c.mpc ≠ .jw || isDone c c.jtgt)
   | .x => c.xpc ≠ .done && c.xpc ≠ .osExit
+  | .f k => k < c.fdone.length && !isDone c k
 
 def step (c : Cfg) (t : Tid) : Cfg :=
   if enabled c t then
     match t with
     | .main => stepMain c
     | .x => stepX c
+    | .f k => { c with fdone := c.fdone.set k true }
   else c
 
 def run (c : Cfg) : List Tid → Cfg
@@ -151,13 +208,16 @@ def xret (total : Nat) (c : Cfg) : Nat :=
 /-- bus state, `execv` flag, number of 'main' publications, execv performed, `block()` returned,
     calls of the second thread returned, second thread killed the process -/
 def obsStr (total : Nat) (c : Cfg) : String :=
-  s!"S={showSt c.state};X={b01 c.execv};P={c.pubs};D={b01 c.execvDone};M={b01 (c.mpc == .done)};R={xret total c};E={b01 (c.xpc == .osExit)}"
+  let f := String.join (c.fdone.map b01)
+  let j := if c.joined.isEmpty then "-" else ",".intercalate (c.joined.map fun k => s!"f{k + 1}")
+  s!"S={showSt c.state};X={b01 c.execv};P={c.pubs};D={b01 c.execvDone};M={b01 (c.mpc == .done)};R={xret total c};E={b01 (c.xpc == .osExit)};F={f};J={j}"
 
 def St.code : St → Nat
   | .stopped => 0 | .starting => 1 | .started => 2 | .stopping => 3 | .exiting => 4
 
 def MPc.code : MPc → Nat
   | .b10 => 0 | .b11 => 1 | .w2 => 2 | .w4 => 3 | .w5 => 4 | .w6 => 5 | .tail => 6 | .done => 7
+  | .jn => 8 | .jw => 9 | .ex => 10 | .dx => 11
 
 def XPc.code : XPc → Nat
   | .s2 => 0 | .s3 => 1 | .s4 => 2 | .s5 => 3 | .s6 => 4 | .a2 => 5 | .a4 => 6 | .a5 => 7 | .a6 => 8
@@ -166,6 +226,6 @@ def XPc.code : XPc → Nat
   | .done => 25 | .osExit => 26
 
 def keyStr (c : Cfg) : String :=
-  s!"{c.state.code}{b01 c.execv}.{c.mpc.code}.{c.xpc.code}.{b01 c.inExit}{c.exitstate.code}|{c.todo.length}|{c.pubs}{b01 c.exited}{b01 c.execvDone}{b01 c.sawExiting}"
+  s!"{c.state.code}{b01 c.execv}.{c.mpc.code}.{c.xpc.code}.{b01 c.inExit}{c.exitstate.code}|{c.todo.length}|{c.pubs}{b01 c.exited}{b01 c.execvDone}{b01 c.sawExiting}|{String.join (c.fdone.map b01)}|{String.join (c.snap.map fun t => match t.fid with | some k => toString k | none => "_")}.{c.jtgt}.{c.joined.length}"
 
 end CpModel.BlockWait
